@@ -410,6 +410,7 @@ func TestC18(t *testing.T) {
 		"the hint file and the rewritten files are read with datafile.DataReader (validated separately by C11)",
 		"the comparison of the hint-path Open with the scan-path Open is made only when nothing was written in between")
 	defer finishProperty(st)
+	t.Run("two-databases-merge-at-once", func(t *testing.T) { c18TwoMerges(t, st) })
 	checkCases(t, st, func(t *rapid.T) {
 		runHistoryCase(t, "C18", c18Profile, func(r *kvh.Runner) bool { return r.F.HintMerges > 0 })
 	})
